@@ -298,7 +298,7 @@ def lib_case(fname, args, debug, acc, api, con, spy):
         acc.violation('spy-not-reached', f'{fname}: the pre-populated global was not the function called', case)
         return
     acc.count('library_calls_observed')
-    fail_lines = [l for l in logs if l.startswith(f'BareScript: Function "{fname}" failed with error:')]
+    fail_lines = [l for l in logs if l.startswith('BareScript:') and f'"{fname}"' in l and 'resource' not in l]
     if top['raised'] is None:
         acc.count('library_calls_returned')
         if status != 'ok':
